@@ -336,6 +336,56 @@ JNP.logical_and = lambda a, b: values.binop("and", a, b)
 JNP.logical_or = lambda a, b: values.binop("or", a, b)
 JNP.maximum = lambda a, b: (_u("jnp.maximum/minimum elementwise"), values.binop("max", a, b))[1]
 JNP.minimum = lambda a, b: (_u("jnp.maximum/minimum elementwise"), values.binop("min", a, b))[1]
+def _isclose(a, b, rtol=1e-05, atol=1e-08, equal_nan=False):
+    _u("jnp.isclose(a,b,rtol,atol) = |a-b| <= atol + rtol*|b| (exact arithmetic)")
+    A, B = const_arr(a), const_arr(b)
+    d = values.unop("abs", A - B)
+    return d <= (atol + rtol * values.unop("abs", B))
+
+
+def _tri(upper):
+    def f(x, k=0):
+        _u("jnp.triu / tril")
+        X = const_arr(x)
+        if X.ndim != 2:
+            raise OutsideSubset("triu/tril of non-matrix")
+
+        def fn(i):
+            keep = smt.rle(smt.radd(i[0], k), i[1]) if upper else smt.rge(smt.radd(i[0], k), i[1])
+            e = X.at_(i)
+            if isinstance(keep, bool):
+                return e if keep else values.coerce(0, X.kind)
+            return smt.cite(keep, e, CX(0, 0)) if X.kind == "complex" else smt.rite(keep, smt.R(e), 0)
+        return SArr(X.shape, fn, X.kind)
+    return f
+
+
+def _sign(x):
+    _u("jnp.sign elementwise")
+    X = const_arr(x)
+    return SArr(X.shape, lambda i: smt.rite(smt.rgt(smt.R(X.at_(i)), 0), 1, smt.rite(smt.rlt(smt.R(X.at_(i)), 0), -1, 0)), "real")
+
+
+def _floor(x):
+    _u("jnp.floor elementwise")
+    X = const_arr(x)
+
+    def fn(i):
+        v = smt.R(X.at_(i))
+        if smt.is_conc(v):
+            return math.floor(v)
+        return z3.ToReal(z3.ToInt(smt.zr(v)))
+    r = SArr(X.shape, fn, "real")
+    return r if isinstance(x, SArr) else SFloat(r.item0())
+
+
+JNP.isclose = _isclose
+JNP.triu = _tri(True)
+JNP.tril = _tri(False)
+JNP.sign = _sign
+JNP.floor = _floor
+JNP.clip = lambda a, lo=None, hi=None: values.binop("min", values.binop("max", a, lo) if lo is not None else a, hi) if hi is not None else values.binop("max", a, lo)
+JNP.eye = lambda n, dtype=None: _diag(_ones((n,)))
 JNP.power = lambda a, p: values.power(a, p)
 JNP.square = lambda a: const_arr(a) * const_arr(a)
 
